@@ -38,11 +38,12 @@ ASSUMPTIONS = [
     "'tiny' (all entries distinct multiples of 2^-80), identity-like patterns for is_identity (including 'eyet': an identity with one off-diagonal 2^-80)",
     "the harness (replay_matrix.rs) only calls the public API, catches panics and converts f64 -> code of the graded number it equals exactly "
     "(any other value becomes a sentinel that fails the contract)",
-    "swap_rows and fill are modelled at Level B only (not part of C17's statement): mismatches there are counted as drift",
-    "prefilled scenarios (sc.pf != 0): a Full / Banded operand is first handed to the public Matrix::fill(pf), which also sets the cells of "
-    "the band buffer that belong to no entry, and then EVERY writable entry is written; the result of fill itself is not judged, the dense "
-    "meaning after the writes is what the code's readable entries show (write clause), and every observer is judged against it; Identity "
-    "operands are never prefilled (fill on an Identity changes what its entries read as, which C17 does not cover)",
+    "swap_rows is modelled at Level B only (not part of C17's statement): mismatches there are counted as drift",
+    "fill(c) is read as a bulk write (clause C17_Fill): every writable entry (all of Full, the in-band ones of Banded, none of Identity) reads c "
+    "afterwards and every other entry is unchanged, so an Identity matrix stays the identity",
+    "prefilled scenarios (sc.pf != 0): every operand (Identity, Full, Banded; A and B) is first handed to the public Matrix::fill(pf), which for "
+    "Banded also sets the cells of the band buffer that belong to no entry, and then EVERY writable entry is written; the dense meaning after "
+    "the writes is what the code's readable entries show (write clause), and every observer is judged against it",
     "TLC and the CommunityModules Json/IOUtils modules are trusted",
 ]
 
@@ -109,6 +110,15 @@ def _storage_tag(sc):
 
 
 def _signature(clause, sc, detail=None):
+    """Scenarios whose operands went through Matrix::fill before their writes (sc.pf != 0) end in /prefilled."""
+    sig = _signature0(clause, sc, detail)
+    return sig + "/prefilled" if sc.get("pf", 0) != 0 else sig
+
+
+def _signature0(clause, sc, detail=None):
+    if clause == "fill" and isinstance(detail, dict) and "step" in detail:
+        # the prefill step itself: storage kind of the operand handed to fill, and which operand
+        return f"{PROP}/fill/{detail['kind']}/{detail['step']}"
     if clause in ("constructor", "write_in_band") and isinstance(detail, dict) and "ctor" in detail:
         # failed while building an operand: name the constructor; the scenario's final op is irrelevant
         return f"{PROP}/{clause}/{detail['ctor']}/build"
@@ -274,8 +284,8 @@ def run(tier, seed, replay, keep, mutate=None):
                     "zeros, squares or (small sizes) multiples of 2^-80 / "
                     "scalar op with scalars -1,0,1,2,2^-80,-2^-80,2^80 / is_identity / swap_rows / fill), plus two-operation sequences (first: every scalar "
                     "op x scalar or binary op; second, on the result: is_identity / write at every (i,j) + read-all / scalar op / "
-                    "binary op with a fresh Identity, Full or Banded operand), plus prefilled scenarios (Matrix::fill(5 or 2^-80) on the whole buffer of "
-                    "every Full / Banded operand, all writable entries then written with the zero / identity / distinct pattern, observed by "
+                    "binary op with a fresh Identity, Full or Banded operand), plus prefilled scenarios (Matrix::fill(5 or 2^-80) on "
+                    "every operand incl. Identity, all writable entries then written with the zero / identity / distinct pattern, observed by "
                     "read-all, is_identity, a further write, every scalar op, every binary op x storage of a prefilled second operand, and "
                     "component_mul[_mut] followed by every second operation), the contract being evaluated after EACH step; each scenario is one behaviour of the "
                     "model, is replayed on the real Matrix API and its recorded trace is validated by TLC against Trace_Matrix",
